@@ -145,6 +145,7 @@ fn class_weights(mode: Prop, kind: Kind, mbuff_len: usize) -> Vec<(Class, u32)> 
                 w.push((Class::ProbePktAbs, 1));
                 w.push((Class::ProbePktInd, 1));
                 w.push((Class::ProbePktChain, 1));
+                w.push((Class::ProbePktLoop, 1));
                 w.push((Class::ProbeHelperThenPkt, 1));
                 w.push((Class::ProbeCallThenPkt, 1));
             }
@@ -179,6 +180,7 @@ fn class_weights(mode: Prop, kind: Kind, mbuff_len: usize) -> Vec<(Class, u32)> 
                 w.push((Class::ProbePktAbs, 3));
                 w.push((Class::ProbePktInd, 3));
                 w.push((Class::ProbePktChain, 2));
+                w.push((Class::ProbePktLoop, 2));
                 w.push((Class::ProbeHelperThenPkt, 3));
                 w.push((Class::ProbeCallThenPkt, 2));
             }
@@ -330,6 +332,14 @@ pub fn generate(rng: &mut Rng, mode: Prop) -> Scenario {
             }
             Class::StackFill => gen_stack_fill(rng, tag, kind.has_packet()),
             Class::DeepCall => gen_deep_call(tag),
+            Class::ProbePktLoop => {
+                let count = rng.range(2, 6) as usize;
+                let step = *rng.pick(&[1usize, 1, 2, 3, 8]);
+                let imm = rng.below(5) as usize;
+                let span = (count - 1) * step + imm;
+                let start = if p0len > span + 16 { pick_pkt_index(rng, p0len - 8 - span) } else { 0 };
+                gen_probe_pkt_loop(tag, start, count, step, imm, *rng.pick(&[1u8, 1, 2, 4]))
+            }
             Class::ProbePktChain => {
                 if p0len < 300 {
                     gen_probe_pkt_abs(tag, 0, 1) // only long packets can be indexed by a loaded byte
